@@ -61,6 +61,17 @@ def prog_shared(rng, d):
         for i in range(60):
             nm = f"exp_{o}_{i}_{rng.getrandbits(20):x}"
             t += [f".globl {nm}", f".type {nm},@function", f'.section .text.{nm},"ax",@progbits', f"{nm}: ret"]
+        # pairs of exported names with the SAME 32-bit GNU hash ('aQ' and 'b0' hash alike: 97*33+81 ==
+        # 98*33+48), defined in different objects: any ordering of dynamic symbols that is keyed on the
+        # hash alone leaves their relative order to scheduling / grouping
+        for i in range(4):
+            for suffix, owner in (("aQ", o), ("b0", (o + 1) % 6)):
+                if owner == o and suffix == "aQ" or suffix == "b0" and False:
+                    nm = f"col{o}_{i}_{suffix}"
+                    t += [f".globl {nm}", f".type {nm},@function", f'.section .text.{nm},"ax",@progbits', f"{nm}: ret"]
+            prev = (o - 1) % 6
+            nm = f"col{prev}_{i}_b0"
+            t += [f".globl {nm}", f".type {nm},@function", f'.section .text.{nm},"ax",@progbits', f"{nm}: ret"]
         if o == 0:
             t += ['.section .text.vers,"ax",@progbits', ".globl foo_v1", "foo_v1: ret", ".globl foo_v2", "foo_v2: ret",
                   ".symver foo_v1, foo@V1", ".symver foo_v2, foo@@V2",
